@@ -109,6 +109,11 @@ func jobs() []job {
 			}},
 		{name: "obipcr:e2", bin: "obipcr", setup: pcr, args: pcrArgs("-e", "2", "-L", "400")},
 		{name: "obipcr:flank", bin: "obipcr", setup: pcr, args: pcrArgs("-e", "1", "-L", "300", "-l", "10", "-D", "5")},
+		{name: "obipcr:fragmented", bin: "obipcr", setup: func(c *core.Ctx, dir string, n int) {
+			t, f, v := gen.PCRGenome(c.Rng, 1+min(n, 2), 8)
+			w(dir, "tpl.fasta", t)
+			w(dir, "primers", []byte(f+" "+v))
+		}, args: pcrArgs("-e", "0", "-L", "10", "-l", "3", "--fragmented")},
 		{name: "obicount:all", bin: "obicount", setup: fa, args: in("in.fasta"), noPB: true},
 		{name: "obisummary:json", bin: "obisummary", setup: fq, args: with("in.fastq", "--json-output"), noPB: true},
 		{name: "obisummary:obiclean", bin: "obisummary", setup: func(c *core.Ctx, dir string, n int) { w(dir, "clean.fasta", gen.ObicleanFasta(c.Rng, n)) },
